@@ -606,6 +606,7 @@ func (fr *Frame) defaultCall(st *State, call ssa.CallInstruction, key string, si
 		} else {
 			r = vc.sc.Fresh(fr.prefix+"r_"+shortName(key), rs)
 			vc.older(st, r, rs)
+			vc.structResult(st, r, rt)
 		}
 		res = append(res, r)
 	}
@@ -656,6 +657,13 @@ func (fr *Frame) defaultCall(st *State, call ssa.CallInstruction, key string, si
 func (vc *VC) recordCallArgs(key string, args []Term, ats []types.Type) {
 	if vc.callArgs == nil {
 		vc.callArgs = map[string][]cval{}
+	}
+	if !strings.Contains(key, "#") {
+		if vc.argCount == nil {
+			vc.argCount = map[string]int{}
+		}
+		vc.argCount[key]++
+		vc.recordCallArgs(fmt.Sprintf("%s#%d", key, vc.argCount[key]), args, ats)
 	}
 	if _, ok := vc.callArgs[key]; ok {
 		return
@@ -1120,6 +1128,7 @@ func (fr *Frame) invoke0(st *State, call ssa.CallInstruction) []Term {
 		rs := vc.sortOf(sig.Results().At(i).Type())
 		r := vc.sc.Fresh(fr.prefix+"r_"+m.Name(), rs)
 		vc.older(st, r, rs)
+		vc.structResult(st, r, sig.Results().At(i).Type())
 		res = append(res, r)
 	}
 	vc.recordCallSyms(mkey, sig, res)
